@@ -124,6 +124,8 @@ def build(kind, val, module):
         if c is None:
             raise RuntimeError('class %s not found' % cls)
         if hasattr(c, '_fields') and issubclass(c, tuple):
+            for f in c._fields:
+                fields.setdefault(f, '')
             return c(**fields)
         o = c.__new__(c)
         for f, v in fields.items():
